@@ -396,6 +396,9 @@ pub fn events() -> Vec<Ev> {
         for (attrs, text, multiple, nested) in [
             (vec![], false, false, false),
             (vec!["x".to_string()], false, false, false),
+            // an attribute whose field identifier has to be rewritten (keyword), on one of two equally
+            // named elements only (r/a and r/a/a)
+            (vec!["type".to_string()], false, false, false),
             (vec![], true, false, false),
             (vec![], false, true, false),
             (vec![], false, false, true),
@@ -582,7 +585,7 @@ pub fn run(ctx: &Ctx) {
     }
     ctx.set(
         "rule",
-        json!("breadth-first search from Element::new(r, attrs) (attrs in {[], [x], [x,y]}) over the public mutators applied to the root or to a child reached with get_child_mut: add_unique_child (plain leaf / with attribute / with text / already multiple), set_child_optional, remove_child, merge_attr (six lists), set_multiple, text = Some/None; names a, A (same PascalCase form, colliding identifiers), ns:a (same local name), r-a1 (equals a numbered struct name); add_unique_child also of an element that brings a child of its own; take(n) = remove_child keeping the removed element, put_back = add_unique_child of the kept element. Every transition is executed on the real Element and on an ordered-map model; compared after every step: child-name uniqueness, (name, tag) sets, lookup and removal results, no-op of adding a present name, subtree preservation of set_child_optional; every state is rendered (both presets, both sort options), checked for well-formedness as in C04 and its fields compared with the model"),
+        json!("breadth-first search from Element::new(r, attrs) (attrs in {[], [x], [x,y]}) over the public mutators applied to the root or to a child reached with get_child_mut: add_unique_child (plain leaf / with attribute x / with attribute `type` / with text / already multiple), set_child_optional, remove_child, merge_attr (six lists), set_multiple, text = Some/None; names a, A (same PascalCase form, colliding identifiers), ns:a (same local name), r-a1 (equals a numbered struct name); add_unique_child also of an element that brings a child of its own; take(n) = remove_child keeping the removed element, put_back = add_unique_child of the kept element. Every transition is executed on the real Element and on an ordered-map model; compared after every step: child-name uniqueness, (name, tag) sets, lookup and removal results, no-op of adding a present name, subtree preservation of set_child_optional; every state is rendered (both presets, both sort options), checked for well-formedness as in C04 and its fields compared with the model"),
     );
 }
 
